@@ -29,5 +29,7 @@ class Prop(RefProp):
                 gen_pipes.ctx_config_call(rng, case)
             elif r < 0.16:
                 gen_pipes.falsy_item_call(rng, case)
+            elif r < 0.21:
+                gen_pipes.main_parser_failure(rng, case)
             cases.append(case)
         return cases
